@@ -423,7 +423,7 @@ def main(argv=None):
     for lane in lanes:
         budget = lane.quick if a.tier == 'quick' else lane.thorough
         # lane budgets were tuned for ~5 s per property; the quick tier runs them three times over (module may override)
-        tier_scale = getattr(mod, 'QUICK_SCALE', 3.0) if a.tier == 'quick' else getattr(mod, 'THOROUGH_SCALE', 1.0)
+        tier_scale = getattr(mod, 'QUICK_SCALE', 3.0) if a.tier == 'quick' else getattr(mod, 'THOROUGH_SCALE', 2.0)
         budget = int(budget * a.scale * (tier_scale if lane.custom is None else 1))
         if budget <= 0:
             continue
